@@ -89,6 +89,32 @@ pub uninterp spec fn dot_parts(s: Seq<char>) -> Seq<Seq<char>>;
 pub fn vx_split_dot<'a>(s: &'a str) -> (r: Vec<&'a str>)
     ensures texts(r@) == dot_parts(s@), 1 <= r@.len() <= s@.len() + 1,
 { s.split('.').collect() }
+/// HashMap<String, V>::get(&str): "Returns a reference to the value corresponding to the key. The key may be any borrowed form of the
+/// map's key type, but Hash and Eq on the borrowed form must match those for the key type" - String: Borrow<str>, equal iff same text.
+/// vstd gives no meaning to a `&str` lookup in a String-keyed map; this helper (its body is that very call) carries the contract.
+#[verifier::external_body]
+pub fn vx_get_str_key<'a, V>(m: &'a HashMap<String, V>, k: &str) -> (r: Option<&'a V>)
+    ensures match r {
+        Some(v) => exists|s: String| #[trigger] m@.contains_key(s) && s@ == k@ && m@[s] == *v,
+        None => forall|s: String| #[trigger] m@.contains_key(s) ==> s@ != k@,
+    }
+{ m.get(k) }
+/// <&str as ToString>::to_string: "Converts the given value to a String" through Display, and `Display for &T` forwards to `T`
+#[verifier::external_body]
+pub fn vx_ref_str_to_string(s: &&str) -> (r: String)
+    ensures r@ == s@,
+{ s.to_string() }
+/// str::replace(['\\', '/'], "."): a function of the text
+pub uninterp spec fn seps_to_dots(s: Seq<char>) -> Seq<char>;
+#[verifier::external_body]
+pub fn vx_seps_to_dots(s: &str) -> (r: String)
+    ensures r@ == seps_to_dots(s@),
+{ s.replace(['\\', '/'], ".") }
+#[verifier::external_body]
+pub fn vx_opt_string_as_str(o: &Option<String>) -> (r: Option<&str>)
+    ensures match (*o, r) { (Some(s), Some(d)) => d@ == s@, (None, None) => true, _ => false },
+{ o.as_deref() }
+pub uninterp spec fn module_map_rewrite(rules: Vec<(Regex, String)>, s: Seq<char>) -> Seq<char>;
 /// [&str]::join("."): a function of the parts' texts
 pub uninterp spec fn join_dot(parts: Seq<Seq<char>>) -> Seq<char>;
 #[verifier::external_body]
@@ -106,15 +132,109 @@ pub open spec fn module_wf(s: &LuaModuleIndex) -> bool {
 
 /// the fields that `remove` / `add` / `clear` never write (configuration and the id of the root node)
 pub open spec fn config_same(a: &LuaModuleIndex, b: &LuaModuleIndex) -> bool {
-    &&& a.module_root_id == b.module_root_id &&& a.id_counter == b.id_counter &&& a.fuzzy_search == b.fuzzy_search
+    &&& a.module_root_id == b.module_root_id &&& a.fuzzy_search == b.fuzzy_search
     &&& a.module_patterns == b.module_patterns &&& a.workspaces == b.workspaces &&& a.module_replace_vec == b.module_replace_vec
 }
 //@@include c10_module/remove_lemmas.rs
+//@@include c10_module/add_spec.rs
+//@@include c10_module/find_spec.rs
+
+/// what `add_module_by_module_path` puts into the file map: a fresh ModuleInfo (not meta, default visibility, nothing exported yet)
+pub open spec fn info_fresh(i: ModuleInfo, f: FileId, ws: WorkspaceId, parts: Seq<Seq<char>>) -> bool {
+    &&& i.file_id == f &&& i.workspace_id == ws &&& !i.is_meta &&& i.export_type is None &&& i.version_conds is None &&& i.semantic_id is None
+    &&& i.full_module_name@ == join_dot(parts) &&& i.name@ == parts.last()
+}
+
+/// derive(Default): "the Default implementation of each field type is used": Option -> None, HashMap -> empty, Vec -> empty
+pub assume_specification[ <ModuleNode as Default>::default ]() -> (r: ModuleNode)
+    ensures root_node_fresh(r);
+pub open spec fn root_node_fresh(r: ModuleNode) -> bool {
+    r.parent is None && r.children@ == Map::<String, ModuleNodeId>::empty() && r.file_ids@ == Seq::<FileId>::empty()
+}
+
+/// everything but the file map is unchanged
+pub open spec fn rest_same(a: &LuaModuleIndex, b: &LuaModuleIndex) -> bool {
+    &&& config_same(a, b) &&& a.id_counter == b.id_counter &&& a.module_nodes == b.module_nodes &&& a.module_name_to_file_ids == b.module_name_to_file_ids
+}
+/// `LuaModuleIndex::is_meta_file`
+pub open spec fn is_meta(s: &LuaModuleIndex, f: FileId) -> bool { s.file_module_map@.contains_key(f) && s.file_module_map@[f].is_meta }
+
+/// `r` is the answer to the lookup of the path with parts `parts`: the ModuleInfo of the file it resolves to, or nothing
+pub open spec fn found(s: &LuaModuleIndex, r: Option<&ModuleInfo>, parts: Seq<Seq<char>>) -> bool {
+    match r {
+        Some(i) => find_spec(s.module_nodes@, s.module_root_id, s.file_module_map@, parts) is Some
+            && *i == s.file_module_map@[find_spec(s.module_nodes@, s.module_root_id, s.file_module_map@, parts)->0],
+        None => find_spec(s.module_nodes@, s.module_root_id, s.file_module_map@, parts) is None,
+    }
+}
+/// `find_module_node`: the empty path is the root; otherwise separators become dots and the parts are followed from the root
+pub open spec fn node_of_path(s: &LuaModuleIndex, path: Seq<char>) -> Option<ModuleNodeId> {
+    if path.len() == 0 { Some(s.module_root_id) } else { resolve(s.module_nodes@, s.module_root_id, dot_parts(seps_to_dots(path))) }
+}
+pub uninterp spec fn spec_extract_module_path(ws: Vec<Workspace>, pats: Vec<Regex>, path: Seq<char>) -> Option<(String, WorkspaceId)>;
+/// the module path (text) and workspace `add_module_by_path` registers a file path under: extracted, separators turned into dots,
+/// rewritten by the moduleMap rules when there are any
+pub open spec fn path_module(s: &LuaModuleIndex, path: Seq<char>) -> Option<(Seq<char>, WorkspaceId)> {
+    match spec_extract_module_path(s.workspaces, s.module_patterns, path) {
+        Some((mp, ws)) => Some((if s.module_replace_vec@.len() > 0 { module_map_rewrite(s.module_replace_vec, seps_to_dots(mp@)) } else { seps_to_dots(mp@) }, ws)),
+        None => None,
+    }
+}
+impl ModuleVisibility {
+    //@@ ModuleVisibility::is_hidden
+}
+impl ModuleInfo {
+    //@@ ModuleInfo::set_visibility
+}
 
 impl LuaModuleIndex {
+    //@@ LuaModuleIndex::set_meta
+    //@@ LuaModuleIndex::is_meta_file
+    //@@ LuaModuleIndex::set_module_visibility
+    //@@ LuaModuleIndex::get_module
+    //@@ LuaModuleIndex::new
+    //@@ LuaModuleIndex::clear
     //@@ LuaModuleIndex::remove
     //@@ LuaModuleIndex::add_module_by_module_path
+    //@@ LuaModuleIndex::add_module_by_path
+    /// shim of the callee (std::path prefix stripping, WorkspaceImport filter, regex patterns): an uninterpreted function of the
+    /// workspace list, the pattern list and the path - the only things the real function reads
+    #[verifier::external_body]
+    pub fn extract_module_path(&self, path: &str) -> (r: Option<(String, WorkspaceId)>)
+        ensures r == spec_extract_module_path(self.workspaces, self.module_patterns, path@),
+    { unimplemented!() }
+    //@@ LuaModuleIndex::exact_find_module
+    //@@ LuaModuleIndex::find_module_by_normalized_path
+    //@@ LuaModuleIndex::find_module
+    //@@ LuaModuleIndex::find_module_node
+    /// shim of the callee (regex rewriting by the user's `workspace.moduleMap`): an uninterpreted function of the rule list and the text
+    #[verifier::external_body]
+    pub fn replace_module_path(&self, module_path: &str) -> (r: String)
+        ensures r@ == module_map_rewrite(self.module_replace_vec, module_path@),
+    { unimplemented!() }
+    /// shim of the callee (suffix search through `module_name_to_file_ids`; iterator adapters are outside the dialect): NO contract
+    #[verifier::external_body]
+    pub fn fuzzy_find_module(&self, module_path: &str, last_name: &str) -> (r: Option<&ModuleInfo>)
+    { unimplemented!() }
 }
+
+// ---- C20: `---@meta` marks the file as a meta file (statement slice of analyze_doc_tag_meta) ---------------------
+/// projection of `DeclAnalyzer` to the two members the slice writes besides the module index (`db` is the explicit `index` parameter)
+pub struct DeclAnalyzerMetaSink { pub is_meta: bool, pub context: AnalyzeContext }
+#[verifier::external_body] pub struct AnalyzeContext { _p: () }
+impl AnalyzeContext { #[verifier::external_body] pub fn add_meta(&mut self, file_id: FileId) { unimplemented!() } }
+/// syntax-tree accessors: opaque (rowan); the name token and its text are uninterpreted functions of the tag
+#[verifier::external_body] pub struct LuaDocTagMeta { _p: () }
+#[verifier::external_body] pub struct LuaNameToken { _p: () }
+impl LuaDocTagMeta {
+    pub uninterp spec fn name_token(&self) -> Option<LuaNameToken>;
+    #[verifier::external_body] pub fn get_name_token(&self) -> (r: Option<LuaNameToken>) ensures r == self.name_token() { unimplemented!() }
+}
+impl LuaNameToken {
+    pub uninterp spec fn text(&self) -> Seq<char>;
+    #[verifier::external_body] pub fn get_name_text(&self) -> (r: &str) ensures r@ == self.text() { unimplemented!() }
+}
+//@@ analyze_doc_tag_meta::mark
 
 } // verus!
 fn main() {}
